@@ -455,3 +455,91 @@ pub fn with_fn<T: Tag + darling::FromMeta>(m: &syn::Meta) -> darling::Result<T> 
     T::from_meta(m).map(|x| x.with_tag())
 }
 
+
+/// Values for the *magic* fields of a container-level default (`#[darling(default)]`, `default = path`,
+/// `from_ident`) of an element-level receiver: something no input element contains, so that a magic
+/// field wrongly filled from the default instead of from the input shows.
+pub trait Decoy: Sized {
+    fn decoy() -> Self;
+}
+impl Decoy for syn::Ident {
+    fn decoy() -> Self {
+        syn::Ident::new("decoy_ident", proc_macro2::Span::call_site())
+    }
+}
+impl<T: Decoy> Decoy for Option<T> {
+    fn decoy() -> Self {
+        Some(T::decoy())
+    }
+}
+impl Decoy for syn::Visibility {
+    fn decoy() -> Self {
+        syn::parse_str("pub(in decoy::path)").unwrap()
+    }
+}
+impl Decoy for syn::Type {
+    fn decoy() -> Self {
+        syn::parse_str("DecoyType<0>").unwrap()
+    }
+}
+impl Decoy for syn::Expr {
+    fn decoy() -> Self {
+        syn::parse_str("4242 + decoy").unwrap()
+    }
+}
+impl Decoy for Vec<syn::TypeParamBound> {
+    fn decoy() -> Self {
+        vec![syn::parse_str("DecoyBound").unwrap()]
+    }
+}
+impl Decoy for Vec<syn::Attribute> {
+    fn decoy() -> Self {
+        use syn::parse::Parser;
+        syn::Attribute::parse_outer.parse_str("#[decoy_attr]").unwrap()
+    }
+}
+impl Decoy for syn::Generics {
+    fn decoy() -> Self {
+        syn::parse_str("<DecoyParam>").unwrap()
+    }
+}
+impl<P> Decoy for darling::ast::Generics<P> {
+    fn decoy() -> Self {
+        darling::ast::Generics { params: vec![], where_clause: Some(syn::parse_str("where DecoyWhere: Sized").unwrap()) }
+    }
+}
+impl<T: Decoy> Decoy for darling::Result<T> {
+    fn decoy() -> Self {
+        Ok(T::decoy())
+    }
+}
+impl<T: Decoy> Decoy for darling::util::SpannedValue<T> {
+    fn decoy() -> Self {
+        darling::util::SpannedValue::new(T::decoy(), proc_macro2::Span::call_site())
+    }
+}
+impl<T: Decoy, O: Decoy> Decoy for darling::util::WithOriginal<T, O> {
+    fn decoy() -> Self {
+        darling::util::WithOriginal::new(T::decoy(), O::decoy())
+    }
+}
+impl<V, F> Decoy for darling::ast::Data<V, F> {
+    fn decoy() -> Self {
+        darling::ast::Data::Struct(darling::ast::Fields::new(darling::ast::Style::Tuple, vec![]))
+    }
+}
+impl<F> Decoy for darling::ast::Fields<F> {
+    fn decoy() -> Self {
+        darling::ast::Fields::new(darling::ast::Style::Tuple, vec![])
+    }
+}
+impl Decoy for CountedAttrs {
+    fn decoy() -> Self {
+        CountedAttrs(Decoy::decoy())
+    }
+}
+impl Decoy for BodyKind {
+    fn decoy() -> Self {
+        BodyKind("decoy".to_string())
+    }
+}
